@@ -170,6 +170,16 @@ pub fn gen(tier: &str, seed: u64) -> Gen {
         }
     }
     fams.push((format!("{} command templates x {} freshly computed typed arguments", templates.len(), builders.len()), tn, true));
+    // `time` is outside the model (its result is a duration); it must still return for small counts
+    let mut ti_n = 0;
+    for body in &["set x 1", "error e", "break", "", "incr a", "nosuchcmd", "{"] {
+        for count in &["", "0", "1", "2", "-1", "x", "00", " 0 ", "1.0", "9223372036854775808"] {
+            let script = if count.is_empty() { Value::from(vec![Value::from("time"), Value::from(*body)]) } else { Value::from(vec![Value::from("time"), Value::from(*body), Value::from(*count)]) };
+            cases.push(entry("implonly", script.as_str()));
+            ti_n += 1;
+        }
+    }
+    fams.push(("`time` (outside the model) with 7 bodies x 10 small or malformed counts: implementation only".to_string(), ti_n, true));
     // histories: earlier scripts (failing ones included) then a hostile call on the same interpreter
     let hist_pool = [
         "proc f {} {f}; catch {f}", "catch {if 1 \"set x \\{\"}", "set errorInfo(x) 1", "unset -nocomplain errorInfo", "rename set _s; rename _s set",
@@ -229,6 +239,10 @@ pub fn run(case: &Term) -> Term {
     let (mut interp, _) = harness_interp(0);
     let _ = interp.eval("set a 1; set b(1) x");
     match kind.as_str() {
+        "implonly" => match interp.eval(&text) {
+            Ok(_) => tag("Ok", vec![ts("returned")]),
+            Err(_) => tag("Err", vec![ts("returned")]),
+        },
         "eval" => obs_result(&interp.eval(&text)),
         "expr" => obs_result(&interp.expr(&Value::from(text.as_str()))),
         "complete" => tb(interp.complete(&text)),
